@@ -2,6 +2,7 @@ import PGV.Driver.Common
 import PGV.Driver.C14
 import PGV.Driver.C09
 import PGV.Driver.Walk
+import PGV.Driver.C15
 
 open PGV PGV.Driver
 
@@ -20,6 +21,7 @@ def dispatch (line : String) : String :=
       match op with
       | "split" | "parse" | "gen" | "rmset" | "rt" => C14.handle op args impl
       | "lru" => C09.handle op args impl
+      | "explain-c" | "explain-raw" => C15.handle op args impl
       | _ => none
     match r with
     | some r => r.render
